@@ -424,7 +424,7 @@ pub fn run(tier: Tier, seed: u64) -> i32 {
             rep.broken(format!("strace analyser self-test failed: {:?}", a));
         }
     }
-    let n = tier.pick(200, 2000);
+    let n = tier.pick(200, 5000);
     let res = par_map(n, crate::util::ncpu(), |i| {
         let mut rng = Rng::new(seed).fork(0x1600 + i as u64);
         let focus = match i % 3 {
@@ -447,7 +447,7 @@ pub fn run(tier: Tier, seed: u64) -> i32 {
             );
         }
     }
-    let nf = tier.pick(54, 540);
+    let nf = tier.pick(54, 1500);
     let res = par_map(nf, crate::util::ncpu(), |i| (i, failing_clone_case(&rep, i, seed)));
     for (i, r) in res {
         if let Some(why) = r {
@@ -459,7 +459,7 @@ pub fn run(tier: Tier, seed: u64) -> i32 {
             );
         }
     }
-    let nc = tier.pick(120, 1200);
+    let nc = tier.pick(120, 3000);
     let res = par_map(nc, crate::util::ncpu(), |i| (i, compress_case(&rep, i, seed)));
     for (i, r) in res {
         if let Some(why) = r {
